@@ -311,29 +311,81 @@ def runtime_discipline(rng, ncalls):
 # ---------------------------------------------------------------------------------------------
 # C16 searches
 
+def writer_methods():
+    """methods that write instance-held shared state, from the static inventory"""
+    inv = static_inventory()
+    out = set()
+    for k, fns in inv['instance_state'].items():
+        if 'Shape' in k:      # per-call objects, not shared
+            continue
+        out |= set(fns)
+    return out
+
+WRITER_METHODS = set()
+
+def edge_cells(a5, mods, rng, n):
+    """cells straddling dodecahedron edges / vertices (they use the reflected triangles): found through the frame points"""
+    crs = mods['a5.projections.dodecahedron'].crs
+    to_lonlat = mods['a5.core.coordinate_transforms'].to_lonlat
+    to_spherical = mods['a5.core.coordinate_transforms'].to_spherical
+    cells = []
+    verts = list(crs._vertices)[12:]
+    for _ in range(n):
+        v = rng.choice(verts)
+        lon, lat = to_lonlat(to_spherical(v))
+        r = rng.randint(2, 12)
+        try:
+            c = a5.lonlat_to_cell((lon + rng.uniform(-1e-3, 1e-3), lat + rng.uniform(-1e-3, 1e-3)), r)
+            cells.append(c)
+        except Exception:
+            pass
+    return cells
+
+def cold_reset(mods):
+    """empty every lazily filled cache (fresh singleton instances), as in a fresh interpreter"""
+    cellmod = mods['a5.core.cell']
+    cellmod._dodecahedron = type(cellmod._dodecahedron)()
+
 def preemption_search(rng, pairs, max_points, a5=None):
     """for API calls A and B: run A under sys.settrace; at the k-th line event inside the library run B to completion
     (a context switch at that line boundary), then let A finish; A's result must equal its undisturbed result.
     Every k up to max_points per pair (systematic, context bound 2)."""
-    if a5 is None:
-        a5, _ = fresh_a5()
+    global WRITER_METHODS
+    WRITER_METHODS = writer_methods()
+    a5, mods = fresh_a5()
+    a5ref, _ = fresh_a5()
     fails = []
     stats = {'pairs': 0, 'preemption_points': 0}
+    if pairs == 'auto' or (isinstance(pairs, tuple) and pairs[0] == 'auto'):
+        extra = pairs[1] if isinstance(pairs, tuple) else []
+        ec = edge_cells(a5ref, mods, rng, pairs[2] if isinstance(pairs, tuple) else 6)
+        pairs = list(extra)
+        for c in ec:
+            a = rng.choice([('cell_to_boundary', (c, {'segments': 1})), ('cell_to_lonlat', (c,)), ('cell_to_boundary', (c,))])
+            pairs.append((a, a))
     libdir = os.path.join(os.path.realpath(REPO), 'a5')
     for (A, B) in pairs:
         try:
-            refA = canon(call(a5, *A)); refB = canon(call(a5, *B))
+            refA = canon(call(a5ref, *A)); refB = canon(call(a5ref, *B))
         except Exception:
             continue
         stats['pairs'] += 1
-        # count line events of A
+        # count line events of A; remember those inside the dynamic extent of a method that writes shared state
         nev = [0]
+        critical = []
         def counter(frame, event, arg):
             if not frame.f_code.co_filename.startswith(libdir):
                 return None
             if event == 'line':
                 nev[0] += 1
+                f = frame
+                depth = 0
+                while f is not None and depth < 6:
+                    if f.f_code.co_name in WRITER_METHODS:
+                        critical.append(nev[0]); break
+                    f = f.f_back; depth += 1
             return counter
+        cold_reset(mods)
         sys.settrace(counter)
         try:
             call(a5, *A)
@@ -344,7 +396,10 @@ def preemption_search(rng, pairs, max_points, a5=None):
             continue
         ks = list(range(1, total + 1))
         if len(ks) > max_points:
-            ks = sorted(rng.sample(ks, max_points))
+            crit = critical if len(critical) <= max_points else sorted(rng.sample(critical, max_points))
+            rest = rng.sample(ks, max(4, max_points // 4))
+            ks = sorted(set(crit) | set(rest))
+        stats['critical_points'] = stats.get('critical_points', 0) + len(critical)
         for k in ks:
             state = {'n': 0, 'done': False, 'berr': None, 'bres': None}
             def tracer(frame, event, arg):
@@ -361,6 +416,7 @@ def preemption_search(rng, pairs, max_points, a5=None):
                             state['berr'] = type(e).__name__
                         sys.settrace(tracer)
                 return tracer
+            cold_reset(mods)
             sys.settrace(tracer)
             try:
                 try:
